@@ -87,6 +87,13 @@ class C18(Prop):
             else:
                 s0 = rng.choice([1, 5, 100])
                 rows.append(["F", f"c{k}", s0, s0 + ln - 1, rng.choice([1, 1, -1, -1, 0]), []])
+        fr = [k for k, r in enumerate(rows) if r[0] == "F"]
+        if len(fr) >= 2 and rng.random() < 0.2:
+            # the same contig interval twice in one scaffold: equal values, two distinct Fragment objects
+            # (most often as first and last row, where a cut has to tell them apart by identity)
+            i0, j0 = (fr[0], fr[-1]) if rng.random() < 0.6 else sorted(rng.sample(fr, 2))
+            rows[j0] = list(rows[i0])
+            gen = gen + "/twins"
         bounds = [0]
         for r in rows:
             bounds.append(bounds[-1] + row_len(r))
